@@ -23,6 +23,8 @@ type LexOpts struct {
 	MaxRecord     int
 	MaxChunk      int
 	KeepRaw       bool // retain the slices returned by Next(nil) for the aliasing check
+	// ComputedFirst: the attachment callback asks for ComputedCRC before ParsedCRC (both orders are legal)
+	ComputedFirst bool
 }
 
 // Out is one record delivered by the lexer (or its attachment callback).
@@ -70,9 +72,16 @@ func (o LexOpts) lexerOptions(res *LexResult) *mcap.LexerOptions {
 			out.AttReadErr = err
 			a := &refmcap.Attachment{LogTime: ar.LogTime, CreateTime: ar.CreateTime, Name: ar.Name, MediaType: ar.MediaType, Data: data}
 			if err == nil && uint64(len(data)) == ar.DataSize {
-				out.ParsedCRC, out.CRCErr = ar.ParsedCRC()
-				if out.CRCErr == nil {
+				if o.ComputedFirst {
 					out.ComputedCRC, out.CRCErr = ar.ComputedCRC()
+					if out.CRCErr == nil {
+						out.ParsedCRC, out.CRCErr = ar.ParsedCRC()
+					}
+				} else {
+					out.ParsedCRC, out.CRCErr = ar.ParsedCRC()
+					if out.CRCErr == nil {
+						out.ComputedCRC, out.CRCErr = ar.ComputedCRC()
+					}
 				}
 			} else if err == nil {
 				out.AttReadErr = io.ErrUnexpectedEOF
